@@ -78,32 +78,29 @@ def exprToks (c ap : Bool) (q : Nat) (ws : Bool) : Node → List Tok
     if ap || decide (prioPREFIX ≤ q) then
       lparen ws :: tk t false :: exprToksO c ap prioPREFIX false r ++ [rparen]
     else tk t ws :: exprToksO c ap prioPREFIX false r
-  | .infix t l r =>
-    match lookupPrec t.type, r with
-    | some n, some r =>
-      if ap || decide (n < q) then
-        lparen ws :: exprToksO c ap n false l ++ tk t (!c) ::
-          exprToks c ap (if sameAssociativeOperator t r then n else n + 1) (!c) r ++ [rparen]
-      else
-        exprToksO c ap n ws l ++ tk t (!c) ::
-          exprToks c ap (if sameAssociativeOperator t r then n else n + 1) (!c) r
-    | _, _ => []
+  | .infix t l (some r) =>
+    -- `needParen`: the operator's precedence (the printer panics when it has none: outside the fragment)
+    if ap || decide (Parser.precOf t.type < q) then
+      lparen ws :: exprToksO c ap (Parser.precOf t.type) false l ++ tk t (!c) ::
+        exprToks c ap (if sameAssociativeOperator t r then Parser.precOf t.type else Parser.precOf t.type + 1) (!c) r ++ [rparen]
+    else
+      exprToksO c ap (Parser.precOf t.type) ws l ++ tk t (!c) ::
+        exprToks c ap (if sameAssociativeOperator t r then Parser.precOf t.type else Parser.precOf t.type + 1) (!c) r
+  | .infix _ _ none => []
   | .call _ f args =>
     exprToksO c ap prioCALL ws f ++ lparen false :: listToks c ap prioLOWEST false args ++ [rparen]
   | .array _ es => sym .LBRACKET [91] ws :: listToks c ap q false es ++ [rbracket]
   | .index t l i =>
-    match lookupPrec t.type with
-    | some n =>
-      let needP := ap || decide (n < q)
-      let lp := t.type == .DOT && isNumberLiteral l
-      let ip := t.type == .DOT && (isNumberLiteral i || !isSingleToken i)
-      (if needP then [lparen ws] else []) ++
-      (if lp then lparen (!needP && ws) :: exprToksO c ap n false l ++ [rparen] else exprToksO c ap n (!needP && ws) l) ++
-      tk t false ::
-      (if ip then lparen false :: exprToksO c ap prioLOWEST false i ++ [rparen] else exprToksO c ap prioLOWEST false i) ++
-      (if t.type == .LBRACKET then [rbracket] else []) ++
-      (if needP then [rparen] else [])
-    | none => []
+    (if ap || decide (Parser.precOf t.type < q) then [lparen ws] else []) ++
+    (if t.type == .DOT && isNumberLiteral l then
+       lparen (!(ap || decide (Parser.precOf t.type < q)) && ws) :: exprToksO c ap (Parser.precOf t.type) false l ++ [rparen]
+     else exprToksO c ap (Parser.precOf t.type) (!(ap || decide (Parser.precOf t.type < q)) && ws) l) ++
+    tk t false ::
+    (if t.type == .DOT && (isNumberLiteral i || !isSingleToken i) then
+       lparen false :: exprToksO c ap prioLOWEST false i ++ [rparen]
+     else exprToksO c ap prioLOWEST false i) ++
+    (if t.type == .LBRACKET then [rbracket] else []) ++
+    (if ap || decide (Parser.precOf t.type < q) then [rparen] else [])
   | _ => []
 def exprToksO (c ap : Bool) (q : Nat) (ws : Bool) : Option Node → List Tok
   | none => []
